@@ -1354,7 +1354,7 @@ func runValSlice(c *core.Ctx) {
 		}
 		fv := funcValue(call.Call.Args[1])
 		ok, why := impliesFalse(c, filValid, call)
-		same := fv != nil && evVal[row.same] != nil && sameFunc(fv, evVal[row.same])
+		same := fv != nil && evVal[row.same] != nil && (sameFunc(fv, evVal[row.same]) || sameFunc(evVal[row.same], fv))
 		c.Check(ok && same, nil, fname(c, filValid), "field["+row.field+"]", P.Pos(call.Pos()),
 			fmt.Sprintf("every element validated by %s (the validator of Event.%s); failure ⇒ invalid", fv.Name(), row.same),
 			fmt.Sprintf("elements of %s: forced=%v (%s), validator=%v, want the validator of Event.%s", row.field, ok, why, fv, row.same))
@@ -1451,7 +1451,7 @@ func runValSlice(c *core.Ctx) {
 	}
 	for _, row := range []struct{ letter, same string }{{"e", "ID"}, {"p", "Pubkey"}} {
 		fv := letterVal[row.letter]
-		c.Check(fv != nil && evVal[row.same] != nil && (sameFunc(fv, evVal[row.same]) || sameBody(fv, evVal[row.same])), nil, fname(c, filValid), "tag["+row.letter+"]", P.Pos(filValid.Pos()),
+		c.Check(fv != nil && evVal[row.same] != nil && (sameFunc(fv, evVal[row.same]) || sameFunc(evVal[row.same], fv) || sameBody(fv, evVal[row.same])), nil, fname(c, filValid), "tag["+row.letter+"]", P.Pos(filValid.Pos()),
 			"#"+row.letter+" values validated like Event."+row.same, "#"+row.letter+" values are not validated by the validator of Event."+row.same)
 	}
 	if av := letterVal["a"]; av == nil {
